@@ -153,6 +153,9 @@ class ResultInterp(Interp):
     def binop_hook(self, op, l, r, node):
         if isinstance(l, Tagged) or isinstance(r, Tagged):
             return Tagged("binop:" + type(op).__name__, [l, r])
+        # a value list that went through np.asarray(...) is an array: arithmetic is elementwise
+        if (isinstance(l, tuple) or isinstance(r, tuple)) and getattr(self.root, "lists_are_arrays", False) and isinstance(op, (ast.Mult, ast.Add, ast.Sub, ast.Pow, ast.Div)):
+            return Tagged("binop:" + type(op).__name__, [l, r])
         return super().binop_hook(op, l, r, node)
 
 
@@ -215,6 +218,8 @@ def reducer_verdict(kind: str, term, vals: tuple):
             return False
         if _is(term, "numpy.sqrt", "math.sqrt"):
             inner = term.args[0]
+            if _is(inner, "max", "numpy.maximum") and len(inner.args) == 2 and inner.args[1] in (0, 0.0):
+                inner = inner.args[0]  # clamped radicand: sqrt(max(.., 0))
             if _is(inner, "numpy.var") and inner.args[:1] == (vals,) and inner.kwargs.get("ddof", 0) == 0:
                 return True
             # E[x^2] - E[x]^2 : catastrophic cancellation (negative radicand / nan for tied values)
